@@ -39,10 +39,12 @@ class Operand(Token):
     def ast(self, tokens, stack, builder):
         if tokens:
             from .parenthesis import Parenthesis
-            if isinstance(tokens[-1], Operand) or (
-                    isinstance(tokens[-1], Parenthesis) and tokens[-1].has_end
-            ):
-                raise TokenError()
+            from .operator import Operator
+            t = tokens[-1]
+            if isinstance(t, Operand) or (
+                    isinstance(t, Parenthesis) and t.has_end
+            ) or (isinstance(t, Operator) and t.name == '%'):
+                raise TokenError()  # Two operands without an operator.
         super(Operand, self).ast(tokens, stack, builder)
         builder.append(self)
         _update_n_args(stack)
